@@ -45,6 +45,8 @@ struct MachineRuntime<T: crate::time::Instant> {
     allowed_blocked_microsec: T::Duration,
     counter_a: u64,
     counter_b: u64,
+    // only allow each counter to be zeroed once per trigger_events call
+    counter_zeroed_once: (bool, bool),
 }
 
 #[derive(PartialEq)]
@@ -96,8 +98,6 @@ where
     blocking_active: bool,
     // for internal signaling: if set, specifies the target machines to signal
     signal_pending: Option<SignalTarget>,
-    // only allow each counter to be zeroed once per trigger_events call
-    counter_zeroed_once: (bool, bool),
     framework_start: T,
 }
 
@@ -147,6 +147,7 @@ where
                 allowed_blocked_microsec: T::Duration::from_micros(m.allowed_blocked_microsec),
                 counter_a: 0,
                 counter_b: 0,
+                counter_zeroed_once: (false, false),
             });
         }
 
@@ -168,7 +169,6 @@ where
             padding_sent_packets: 0,
             normal_sent_packets: 0,
             signal_pending: None,
-            counter_zeroed_once: (false, false),
         };
 
         for (runtime, machine) in s.runtime.iter_mut().zip(s.machines.as_ref().iter()) {
@@ -212,7 +212,9 @@ where
         self.actions.fill(None);
 
         // reset flags for zeroed counters (allowed to zero once per call)
-        self.counter_zeroed_once = (false, false);
+        for runtime in self.runtime.iter_mut() {
+            runtime.counter_zeroed_once = (false, false);
+        }
 
         // Process all events: note that each event may lead to up to one action
         // per machine, but that future events may replace those actions. Under
@@ -481,9 +483,12 @@ where
                 }
             }
 
-            if old_value_a != 0 && *updated_value_a == 0 && !self.counter_zeroed_once.0 {
+            if old_value_a != 0
+                && self.runtime[mi].counter_a == 0
+                && !self.runtime[mi].counter_zeroed_once.0
+            {
                 any_counter_zeroed = true;
-                self.counter_zeroed_once.0 = true;
+                self.runtime[mi].counter_zeroed_once.0 = true;
             }
         }
 
@@ -507,9 +512,12 @@ where
                 }
             }
 
-            if old_value_b != 0 && *updated_value_b == 0 && !self.counter_zeroed_once.1 {
+            if old_value_b != 0
+                && self.runtime[mi].counter_b == 0
+                && !self.runtime[mi].counter_zeroed_once.1
+            {
                 any_counter_zeroed = true;
-                self.counter_zeroed_once.1 = true;
+                self.runtime[mi].counter_zeroed_once.1 = true;
             }
         }
 
